@@ -121,7 +121,11 @@ func (w *faultyWriter) WriteNext(k, v []byte) error {
 			return errInjected
 		}
 	}
-	w.out = append(w.out, tbl.Pair{K: append([]byte{}, k...), V: v})
+	var vc []byte
+	if v != nil {
+		vc = append([]byte{}, v...)
+	}
+	w.out = append(w.out, tbl.Pair{K: append([]byte{}, k...), V: vc})
 	return nil
 }
 
